@@ -6,9 +6,9 @@ LEVEL_TEXT = ("Coq theorem lazy_eq_eager (C13/Props.v): for every well-formed pi
               "header-name access and .headers of the lazy view equal the eager list computation (representation invariant by induction over the pipeline); feats/label split; load-once rows are "
               "transparent under any access sequence. Sparse rows (sparse_views_are_dictionaries, sparse_stage_semantics): every stack of EncodeSparse/DropSparse/HeadSparse/LabelSparse wrappers reads like one dictionary "
               "(keys without repeats, getitem defined exactly on keys, items the graph of getitem, len the number of keys) and each stage is the eager dict operation. The models' views are compared with the real row classes on generated tables, pipelines and access sequences; an independent eager oracle "
-              "also covers sparse rows, LazyDense/LazySparse with missing markers, equality and copy.")
+              "also covers sparse rows, LazyDense/LazySparse with missing markers, equality and copy. EncodeCatRows('onehot') over a dense row (in-place pop/extend/slice-assignment editing) is proved to be the in-place replacement by one-hot entries and compared with the real filter.")
 TRUSTED = ["Coq 8.16.1 kernel (coqc)", "extraction + ocaml/driver.ml", "harness/c13.py (generator, eager oracle on plain lists/dicts)",
-           "modelled not verified: LazySparse / LazyDense missing-value handling, EncodeCatRows and row predicates are oracle-only; encoders are drawn from {identity, +z, *z, const} in the model; sparse header maps are renamings k -> k+shift"]
+           "modelled not verified: LazySparse / LazyDense missing-value handling, row predicates and EncodeCatRows beyond the flat one-hot form of an un-nested dense row are oracle-only; encoders are drawn from {identity, +z, *z, const} in the model; sparse header maps are renamings k -> k+shift"]
 ASSUMPTIONS = ["keys are non-negative positions in range or header names present in the eager table", "header names are distinct; one encoder per column"]
 RULE = ("tables of 1-4 rows x 1-5 columns; pipelines of 0-4 stages (headers, encoders as list or mapping, drops by position/name incl. duplicated, unknown and out-of-range entries, row predicates, label by position/name); "
         "access sequences mixing getitem by position/name, full and partial iteration, len, ==, feats/label; non-trivial = at least one stage and 2+ columns")
@@ -235,10 +235,12 @@ def check_lazy_sparse(ctx, n_cases):
                 if u < 0.25:      # absent: a numeric zero (not listed), the level / string "0"
                     if k != "numeric": e[nm] = "0"
                     continue
-                if u < 0.5: cells.append("%d ?" % i); e[nm] = None; continue
-                if k == "numeric": v = rng.randrange(1, 9); cells.append("%d %d" % (i, v)); e[nm] = float(v)
-                elif k == "string": v = rng.choice(["p", "q"]); cells.append("%d %s" % (i, v)); e[nm] = v
-                else: v = rng.choice(levels[nm]); cells.append("%d %s" % (i, v)); e[nm] = v
+                sep = rng.choice([" ", " ", "  ", "\t", " \t"])      # index and value are separated by white space (Weka writes one blank, hand-edited and converted files do not)
+                if u < 0.5: cells.append("%d%s?" % (i, sep)); e[nm] = None; continue
+                if k == "numeric": v = rng.randrange(1, 9); cells.append("%d%s%d" % (i, sep, v)); e[nm] = float(v)
+                elif k == "string":
+                    v, txt = rng.choice([("p", "p"), ("q", "q"), ("a b", "'a b'"), ("c,d", '"c,d"')]); cells.append("%d%s%s" % (i, sep, txt)); e[nm] = v      # quoted values send the line down the quote-aware path
+                else: v = rng.choice(levels[nm]); cells.append("%d%s%s" % (i, sep, v)); e[nm] = v
             rows.append("{" + ",".join(cells) + "}"); exp.append(e)
         lab = rng.choice(names) if rng.random() < 0.5 else None
         case = dict(lines=header + rows, label=lab)
@@ -430,6 +432,73 @@ def check_lazy_arff_dense(ctx, n_cases):
         if bad:
             ctx.fail(["lazy-arff-dense", "order-dependent"], "rows first touched in the order %s: row %d reads %r (then %r), the file says %r" % (order, bad[0], got[bad[0]], again[bad[0]], exp[bad[0]]), case)
 
+def check_encode_cat(ctx, n_cases):
+    """EncodeCatRows over list and dict rows with categoricals at the top level and inside nested lists/tuples: the output is the eager replacement (string / one-hot tuple /
+    one-hot spliced in place for lists), the rows handed in are left exactly as they were (also nested lists shared by two rows), and a second pass gives the same"""
+    import copy
+    from coba.pipes.rows import EncodeCatRows
+    from coba.primitives import Categorical
+    rng = ctx.rng
+    LV = ["u", "v", "w"]
+    def cat(): return Categorical(rng.choice(LV), LV)
+    def eager(x, tipe, top=True):
+        if isinstance(x, Categorical): return str(x) if tipe == "string" else tuple(x.as_onehot)
+        if isinstance(x, (list, tuple)):
+            out = []
+            for v in x:
+                if isinstance(v, Categorical) and tipe == "onehot": out.extend(v.as_onehot)
+                else: out.append(eager(v, tipe, False))
+            return out
+        if isinstance(x, dict):
+            out = {}
+            for k, v in x.items():
+                if isinstance(v, Categorical) and tipe == "onehot": out["%s_%d" % (k, list(v.as_onehot).index(1))] = 1      # the documented flat form of a sparse row: key_level-index -> 1
+                else: out[k] = eager(v, tipe, False)
+            return out
+        return x
+    def norm(x):
+        if isinstance(x, Categorical): return ("cat", str(x), tuple(x.levels))
+        if isinstance(x, (list, tuple)): return [norm(v) for v in x]
+        if isinstance(x, dict) or (hasattr(x, "items") and not isinstance(x, str)): return {k: norm(v) for k, v in dict(x.items()).items()}
+        return x
+    model_reqs, model_metas = [], []
+    for it in range(n_cases + 1):
+        if it == n_cases:
+            for (case, f), mo in zip(model_metas, ctx.get_model().batch(model_reqs)):
+                if list(mo) != list(f): ctx.disagree("C13.encode_cat", case, f, mo)
+            break
+        tipe = rng.choice(["onehot", "onehot_tuple", "string"]); kind = rng.choice(["list", "list", "dict"]); n = rng.randrange(1, 5)
+        shared = [cat(), rng.randrange(9)] if rng.random() < 0.3 else None      # one nested list object held by every row
+        layout = rng.randrange(3)      # one layout per table: the filter reads the places of the categoricals off the first row
+        def nested(): return shared if shared is not None else [[cat(), rng.randrange(9)], (rng.randrange(9), cat()), [rng.randrange(9), [cat()]]][layout]
+        flat_layout = [rng.random() < 0.5 for _ in range(rng.randrange(1, 7))]; flat_layout[rng.randrange(len(flat_layout))] = True
+        shape = rng.choice(["flat", "flat", "nested", "both"]); ckey = rng.choice(["c", "color", 2]); xkey = rng.choice(["x", "extra", 7])
+        rows = []
+        for _ in range(n):
+            if kind == "list" and shape == "flat": rows.append([cat() if c else rng.randrange(9) for c in flat_layout])      # several categoricals: adjacent, first, last
+            elif kind == "list": rows.append([rng.randrange(9)] + ([cat()] if shape != "nested" else []) + ([nested()] if shape != "flat" else []) + [rng.randrange(9)])
+            else: rows.append(dict([("a", rng.randrange(9))] + ([(ckey, cat())] if shape != "nested" else []) + ([(xkey, nested())] if shape != "flat" else [])))
+        before = norm(rows)
+        case = dict(what="EncodeCatRows", tipe=tipe, rows=repr(rows)[:400], shared_nested_list=shared is not None); ctx.count("encode-cat:%s:%s" % (kind, tipe), repr(case), n >= 2)
+        try:
+            first = [norm(r) for r in EncodeCatRows(tipe).filter(rows)]
+            mid = norm(rows)
+            second = [norm(r) for r in EncodeCatRows(tipe).filter(rows)]
+        except Exception as e:
+            ctx.fail(["encode-cat", "raises", errname(e)], "EncodeCatRows(%r) raised %s: %s on %s" % (tipe, errname(e), str(e)[:100], case), case); continue
+        if mid != before or norm(rows) != before:
+            ctx.fail(["encode-cat", "source-rows-modified"], "EncodeCatRows(%r) changed the rows it was given: %r -> %r" % (tipe, before, norm(rows)), case); continue
+        if first != second:
+            ctx.fail(["encode-cat", "second-pass-differs"], "EncodeCatRows(%r): a second pass over the same rows gives %r, the first gave %r" % (tipe, second, first), case); continue
+        if kind == "list" and shape == "flat" and tipe == "onehot":      # the in-place editing loop, statement by statement in the extracted model
+            for r, f in zip(rows, first):
+                if all(isinstance(x, (int, Categorical)) for x in r) and all(isinstance(x, int) for x in f):
+                    model_reqs.append((213, [[1, list(x.levels).index(str(x)), len(x.levels)] if isinstance(x, Categorical) else [0, x] for x in r])); model_metas.append((case, f))
+        exp = [norm(eager(r, tipe)) for r in rows]
+        if first != exp and (kind == "list" or sorted(map(repr, first)) != sorted(map(repr, exp)) or True):
+            if kind == "dict" and all(isinstance(a, dict) and isinstance(b, dict) and dict(a) == dict(b) for a, b in zip(first, exp)) and len(first) == len(exp): continue      # (key order of a sparse row does not matter)
+            if True: ctx.fail(["encode-cat", "wrong", tipe], "EncodeCatRows(%r) -> %r, the eager replacement is %r" % (tipe, first, exp), case)
+
 def corpus(ctx):
     import coba.pipes.rows as R
     rows = [[1, 2, 3], [4, 5, 6]]
@@ -453,6 +522,7 @@ def run(ctx):
     check_lazy_arff_dense(ctx, ctx.n(300, 4000))
     check_lazy_dense(ctx, ctx.n(500, 6000))
     check_lazy_sparse(ctx, ctx.n(400, 5000))
+    check_encode_cat(ctx, ctx.n(300, 4000))
 
 def replay(r):
     print(json.dumps(r, indent=1, default=str)[:3000]); return 0
